@@ -48,11 +48,13 @@ def _cfg_text(base_cfg_path, constants):
 
 def run(module, cfg=None, constants=None, workers=16, simulate=None, depth=None, seed=None, env=None,
         timeout=3600, expect_records=True, check_count=True, coverage=False, extra=None, keep_lines=None,
-        javaopts=None, heap="8g"):
+        javaopts=None, heap="8g", raw_out=None):
     """Run TLC on spec/<module>.tla with spec/<cfg or module>.cfg (constants overridden).
 
     simulate: None (exhaustive BFS) or number of behaviours for `-simulate num=N`.
     keep_lines: optional callable(record) -> bool to drop records early (memory).
+    raw_out: path; the exported lines are NOT decoded into res.records but TLC's output file is moved there
+             (for very large exports that are decoded in slices by forked workers, see Ctx.parallel_file).
     """
     os.makedirs(BUILD, exist_ok=True)
     work = tempfile.mkdtemp(prefix="tlc_%s_" % module, dir=BUILD)
@@ -96,6 +98,9 @@ def run(module, cfg=None, constants=None, workers=16, simulate=None, depth=None,
         with open(out_path, errors="replace") as f:
             for line in f:
                 if line.startswith('"{'):
+                    if raw_out is not None:
+                        nlines += 1
+                        continue
                     try:
                         rec = json.loads(json.loads(line))
                     except Exception as ex:
@@ -137,7 +142,9 @@ def run(module, cfg=None, constants=None, workers=16, simulate=None, depth=None,
         if simulate is None and check_count and res.violation is None and nlines and nlines != res.distinct:
             raise MachineryError("exported lines (%d) != distinct states (%d): lost output\n%s" %
                                  (nlines, res.distinct, res.cmd))
-        if expect_records and not res.records and res.violation is None:
+        if raw_out is not None:
+            shutil.move(out_path, raw_out)
+        if expect_records and not res.records and not (raw_out is not None and nlines) and res.violation is None:
             raise MachineryError("TLC produced no records\n%s\n%s" % (res.cmd, res.raw_tail[-3000:]))
         return res
     finally:
